@@ -773,6 +773,14 @@ func (r *Replica) Restore(ctx context.Context, opt RestoreOptions) (err error) {
 		return err
 	}
 
+	// In follow mode, publish the TXID sidecar before the database so that a
+	// crash between the two never leaves a database that cannot be resumed.
+	if opt.Follow {
+		if err := WriteTXIDFile(opt.OutputPath, infos[len(infos)-1].MaxTXID); err != nil {
+			return fmt.Errorf("write initial txid file: %w", err)
+		}
+	}
+
 	// Copy file to final location.
 	r.Logger().Debug("renaming database from temporary location")
 	if err := os.Rename(tmpOutputPath, opt.OutputPath); err != nil {
@@ -788,6 +796,9 @@ func (r *Replica) Restore(ctx context.Context, opt RestoreOptions) (err error) {
 				_ = os.Remove(opt.OutputPath)
 				_ = os.Remove(opt.OutputPath + "-shm")
 				_ = os.Remove(opt.OutputPath + "-wal")
+				if opt.Follow {
+					_ = os.Remove(TXIDPath(opt.OutputPath))
+				}
 			}
 			return fmt.Errorf("post-restore integrity check: %w", err)
 		}
@@ -803,11 +814,7 @@ func (r *Replica) Restore(ctx context.Context, opt RestoreOptions) (err error) {
 		}
 		rdrs = nil
 
-		maxTXID := infos[len(infos)-1].MaxTXID
-		if err := WriteTXIDFile(opt.OutputPath, maxTXID); err != nil {
-			return fmt.Errorf("write initial txid file: %w", err)
-		}
-		return r.follow(ctx, opt.OutputPath, maxTXID, opt.FollowInterval)
+		return r.follow(ctx, opt.OutputPath, infos[len(infos)-1].MaxTXID, opt.FollowInterval)
 	}
 
 	return nil
